@@ -137,6 +137,63 @@ def c07(tier, seed):
                        assumptions=COMMON_ASSUME)
 
 
+ALL6 = (1, 2, 3, 4, 5, 6)
+
+
+def c03(tier, seed):
+    return value_check('C03', [('c03_masks_int.cpp', INT4), ('c03_masks_flt.cpp', FLT2)], tier, seed,
+                       rule='mask values: all 2^N lane patterns for N<=16; N=32/64: walking ones/zeros, prefixes, suffixes, alternating, half patterns + random. '
+                       'pairs: all 2^2N for N<=8, sampled x core otherwise. insert<I>(m,b) for every I and both b on every pattern (lane previously set and clear); '
+                       'extract<I> for every I; results observed through Vector(mask) AND count/any/all/none AND ==, so stale unused k-register bits are visible. '
+                       'mask(vector): every 8/16-bit value, lattice+random otherwise; floats incl. -0.0 (false) and NaN (true). distinct = (config, build, type, op, pattern class).',
+                       assumptions=COMMON_ASSUME)
+
+
+def c08(tier, seed):
+    return value_check('C08', 'c08_mem.cpp', tier, seed, parts=ALL6,
+                       rule='every n in 0..width+2 and {2w, 2w+1, 255, 256, 2^16, 2^31-1, 2^31, 2^32-1}, run-time and compile-time forms (every N in 0..width), pointer offsets 0..3 elements '
+                       '(unaligned API) / aligned pointers (aligned API), four data fills (position-unique, all-ones, high-bit-set random, random); destination pre-filled with a sentinel and '
+                       'every byte outside the written lanes re-checked; gather/scatter with positive, negative and repeated indices; to_array/array-ctor round trip against the raw primitive; '
+                       'extract<I>/insert<I> for every I. distinct = (config, build, type, op, (n, offset) class).',
+                       assumptions=COMMON_ASSUME + ['loaded vectors are read back by memcpy of the primitive, independent of to_array'])
+
+
+def c09(tier, seed):
+    return value_check('C09', 'c09_guard.cpp', tier, seed, parts=ALL6,
+                       rule='guard arena [PROT_NONE | 2 data pages | PROT_NONE]: every call is made flush-right (range ends at the first byte of the inaccessible page) and flush-left; '
+                       'n==0 is called with the pointer inside the inaccessible page; stores additionally re-check every sentinel byte of the data pages; gather/scatter: active lanes index both '
+                       'sides of p incl. first/last element, inactive lanes carry wild indices (guard pages, +-huge); events = SIGSEGV/SIGBUS with si_addr classified, stray writes. '
+                       'san build: same calls on exact-size heap blocks under AddressSanitizer. every n in 0..width+2 + large n, run-time and compile-time forms. '
+                       'aligned API only at placements that are aligned (flush-right only for n>=width). distinct = (config, build, type, op, (n, placement) class).',
+                       assumptions=COMMON_ASSUME + ['hardware fault suppression of masked moves is observed on real silicon (not emulated)',
+                                                    'an over-read that stays inside an accessible page through an uninstrumented masked instruction is not observable'])
+
+
+FLT_LAND = ['none', 'SSE2', 'SSE4_1', 'AVX2', 'F', 'F+VL+BW+DQ+CD', 'ALL']
+
+
+def c10(tier, seed):
+    return value_check('C10', 'c10_farith.cpp', tier, seed, parts=FLT2, cls_kind='flt',
+                       rule=GEN_FLT + 'each op under all four rounding modes; oracle = the same operation on volatile scalars executed by the scalar SSE unit under the same mode; '
+                       'bit-identical except NaN~NaN; unary minus = exact sign flip. distinct = (config, build, type, op@mode, input class).',
+                       assumptions=COMMON_ASSUME + ['the CPU scalar FP unit is the IEEE-754 reference'])
+
+
+def c12(tier, seed):
+    return value_check('C12', 'c12_fmanip.cpp', tier, seed, parts=FLT2, cls_kind='flt',
+                       rule=GEN_FLT + 'frexp: mantissa+exponent vs libm for finite non-zero, zeros return themselves with exponent 0, inf/NaN exponent not compared; ldexp/scalbn vs std::ldexp for '
+                       'value classes x exponents from INT_MIN to INT_MAX incl. every range boundary +-3; ilogb/logb vs libm; frac by value; fmax/fmin per statement (one NaN -> other operand exactly); '
+                       'fdim by value, NaN and equal-infinity operands not generated.',
+                       assumptions=COMMON_ASSUME + ['glibc libm is the reference where the statement names the C library'])
+
+
+def c13(tier, seed):
+    return value_check('C13', 'c13_fclass.cpp', tier, seed, parts=FLT2, cls_kind='flt',
+                       rule=GEN_FLT + 'oracle: std::fpclassify/isnan/isinf/isfinite/isnormal, sign bit, std::isgreater...isunordered; exact booleans / category values.',
+                       assumptions=COMMON_ASSUME + ['glibc classification macros are the reference'])
+
+
 CHECKS = {
-    'C01': c01, 'C02': c02, 'C04': c04, 'C05': c05, 'C06': c06, 'C07': c07,
+    'C01': c01, 'C02': c02, 'C03': c03, 'C04': c04, 'C05': c05, 'C06': c06, 'C07': c07, 'C08': c08, 'C09': c09,
+    'C10': c10, 'C12': c12, 'C13': c13,
 }
